@@ -36,8 +36,14 @@ TKcAdd == /\ l <= Len(Ev) /\ Cur.mech = "kc_add"
           /\ KcAdd(ToSet(Cur.reg), ToSet(Cur.sec), Cur.scr)
           /\ Cur.frame = frame /\ Cur.changed = <<>>
           /\ \A i \in Ins : Pairs(Cur.signed[i]) = signed[i] /\ Cur.valid[i] = valid[i]
+          /\ Cur.bad = BadNow /\ ~Cur.raised
           /\ l' = l + 1 /\ UNCHANGED tid
-TStep == /\ l <= Len(Ev) /\ Cur.mech # "kc_add"
+\* create_signed_tx raised SecretExponentMissing: legitimate iff the pass can leave an input failing
+\* (there is no transaction to look at afterwards; the session ends here)
+TCreateRaised == /\ l <= Len(Ev) /\ Cur.mech = "create_signed" /\ Cur.raised
+                 /\ \E ch \in PassChoices(PassOf(Cur), NIn) : BadAfter(ch) > 0 /\ SignPassWith(PassOf(Cur), ch)
+                 /\ l' = l + 1 /\ UNCHANGED tid
+TStep == /\ l <= Len(Ev) /\ Cur.mech # "kc_add" /\ ~Cur.raised
          /\ Cur.same_as_fresh                    \* a fresh keychain with the same contents signs the same
          /\ SignPassWith(PassOf(Cur), [i \in Ins |-> {e[1] : e \in ToSet(Cur.signed[i])}])
          /\ signed' = [i \in Ins |-> Pairs(Cur.signed[i])]
@@ -46,8 +52,10 @@ TStep == /\ l <= Len(Ev) /\ Cur.mech # "kc_add"
          /\ \A i \in ToSet(Cur.changed) : unlock'[i] # unlock[i]  \* only inputs the pass may rewrite changed
          /\ Cur.canonical                                       \* every signature present: strict DER, low S
          /\ \A i \in Ins : Cur.reported[i] = Cur.valid[i]       \* is_solution_ok agrees
+         /\ Cur.bad = BadNow'                                   \* bad_solution_count() = failing inputs
+         /\ Cur.mech = "create_signed" => BadNow' = 0           \* it returned: everything must be signed
          /\ l' = l + 1 /\ UNCHANGED tid
-TSpec == TInit /\ [][TStep \/ TKcAdd]_tvars
+TSpec == TInit /\ [][TStep \/ TKcAdd \/ TCreateRaised]_tvars
 
 Reached == IF l = Len(Ev) + 1 THEN TLCSet(1, TLCGet(1) \cup {tid}) ELSE TRUE
 \* diagnosis of a rejected trace (harness sends the trace cut after its first rejected event): in the
